@@ -170,9 +170,35 @@ func analyzeSingleStoreLocals(fn *ir.Function, mod *ir.Module) map[uint32]ir.Exp
 		if !isSingleStoreEligible(fn, mod, varIdx, count, nestedStored, hasChainRef) {
 			continue
 		}
+		// The stored value must not read the variable itself (`v = v + x`
+		// on a zero-initialised v): resolving that load to the stored value
+		// would recurse without end.
+		if valueReadsLocal(fn, storeValue[varIdx], varIdx, lvHandles) {
+			continue
+		}
 		result[varIdx] = storeValue[varIdx]
 	}
 	return result
+}
+
+// valueReadsLocal reports whether the expression tree rooted at h contains a
+// reference to local variable varIdx.
+func valueReadsLocal(fn *ir.Function, h ir.ExpressionHandle, varIdx uint32, lvHandles map[ir.ExpressionHandle]uint32) bool {
+	seen := make(map[ir.ExpressionHandle]bool)
+	stack := []ir.ExpressionHandle{h}
+	for len(stack) > 0 {
+		cur := stack[len(stack)-1]
+		stack = stack[:len(stack)-1]
+		if seen[cur] || int(cur) >= len(fn.Expressions) {
+			continue
+		}
+		seen[cur] = true
+		if v, ok := lvHandles[cur]; ok && v == varIdx {
+			return true
+		}
+		stack = append(stack, expressionOperands(fn.Expressions[cur].Kind)...)
+	}
+	return false
 }
 
 // buildLocalVarHandleMap maps ExprLocalVariable expression handles to
